@@ -328,9 +328,39 @@ def run_all(program, rep, roles_wanted=None):
         if roles_wanted is None or r in roles_wanted:
             rep.ob('validator:%s:anchor' % r, 'ANCHOR', '-', '-', 'validator for role %s found' % r, False,
                    'ANCHOR-MISSING: no function with the expected type and signature for role %s' % r)
+    class _Quiet:
+        def ob(self, *a, **k):
+            return None
+
+        def floor(self, *a, **k):
+            return None
+
+        def count(self, *a, **k):
+            return None
+        notes = []
     for role, fns in sorted(found.items()):
         if roles_wanted is not None and role not in roles_wanted:
             continue
+        if roles[role].is_bool and len(fns) > 1:
+            # several `fn(&[u8]) -> bool` helpers in the module: the pre-check of this role is the one whose accepted set is closest to the role's
+            # production (the others are helpers of other tests - what the parser does with them is decided by the parser tables)
+            best, score = None, None
+            exact = []
+            for fn in fns:
+                try:
+                    r = analyse(program, fn, roles[role], _Quiet())
+                    acc = r.accept if r is not None else None
+                except Exception:
+                    acc = None
+                if acc is None:
+                    continue
+                sc = (acc.minus(roles[role].accept).is_empty(), roles[role].accept.minus(acc).is_empty())
+                sc = (sc[0] and sc[1], sc[1], sc[0])
+                if sc[0]:
+                    exact.append(fn)
+                if score is None or sc > score:
+                    best, score = fn, sc
+            fns = exact if exact else ([best] if best is not None else fns[:1])
         for fn in fns:
             rr = role
             if role == 'is_utype':
